@@ -13,7 +13,17 @@ import (
 // preemptions (switching away from a thread that could have continued, a
 // tick while a thread is enabled) stays within the bound.
 
+// pendingLin is a linearizability check deferred until the bubble has ended
+// (porcupine starts goroutines of its own).
+type pendingLin struct {
+	init   map[string]string
+	recs   []callRec
+	imm    bool
+	onFail *Violation
+}
+
 type execResult struct {
+	pending   []pendingLin
 	trace     schedTrace
 	aborted   string
 	outcome   string // canonical observation vector of the execution
@@ -84,21 +94,33 @@ func (e *Explorer) explore(prefix []int, parent []decision, depth int) {
 	if e.c.expired() || e.capped {
 		return
 	}
+	// Sharding: executions at depth 0 and 1 (the default schedule and its
+	// single deviations) are run by every shard, because their traces are
+	// needed to enumerate the depth-2 subtrees, but recorded by one owner
+	// only; every depth-2 subtree is explored by exactly one shard.
 	mine := true
-	if depth == 1 {
+	if depth <= 2 {
 		mine = e.unit%e.nshards == e.shard
 		e.unit++
-		if !mine {
+		if depth == 2 && !mine {
 			return
 		}
 	}
 	x := e.runOne(prefix, parent)
+	if x != nil && x.viol == nil {
+		for _, p := range x.pending {
+			if !checkLinearizable(p.init, p.recs, p.imm) {
+				x.viol = p.onFail
+				break
+			}
+		}
+	}
 	if x == nil {
 		e.c.res.InfraError = "execution returned no result"
 		e.capped = true
 		return
 	}
-	record := depth > 0 || e.shard == 0
+	record := mine
 	if record {
 		e.execs++
 		e.c.res.Evaluations++
@@ -184,6 +206,7 @@ func runConcScenarios(t *testing.T, c *Collector, scs []*ConcScenario) {
 		e.explore(nil, nil, 0)
 		totalOutcomes += len(e.outcomes)
 		c.count("distinct_outcomes", int64(len(e.outcomes)))
+		c.count("execs:"+sc.Name, e.execs)
 		c.count("scenarios", 1)
 		if c.res.InfraError != "" {
 			return
